@@ -12,7 +12,7 @@ from . import replay as RP
 from . import source
 
 CONTRACT_MODULES = ['contracts.game_game', 'contracts.sections', 'contracts.p8text', 'contracts.p8png', 'contracts.p8scii', 'contracts.compress',
-                    'contracts.names', 'contracts.includes', 'contracts.buildsel']
+                    'contracts.names', 'contracts.includes', 'contracts.buildsel', 'contracts.parsercur', 'contracts.astwriter']
 
 
 def registry(mods=None):
